@@ -1,21 +1,56 @@
 #!/usr/bin/env python3
-"""Renders seeded/MATRIX.json (+ meta.json of each seeded change) as the markdown table of DESIGN.md §9.3."""
-import json, os
-root = os.path.join(os.path.dirname(os.path.dirname(os.path.abspath(__file__))), "seeded")
-m = json.load(open(os.path.join(root, "MATRIX.json")))
-print("| change | breaks | needs, in order to manifest | quick checks that fire |")
-print("|---|---|---|---|")
-own = 0
-for k in sorted(m):
-    meta = json.load(open(os.path.join(root, k, "meta.json")))
-    fired = m[k]["fired"]
+"""Renders the seeded-change table of DESIGN.md section 9.6 from seeded/*/meta.json and writes it
+between the MATRIX-BEGIN / MATRIX-END markers of DESIGN.md (and to seeded/MATRIX.md)."""
+import json
+import os
+import re
+
+VERIF = os.path.dirname(os.path.dirname(os.path.abspath(__file__)))
+root = os.path.join(VERIF, "seeded")
+rows = []
+own = caught_any = total = 0
+misses = []
+for d in sorted(os.listdir(root), key=lambda x: (x[0] != "C", x)):
+    mp = os.path.join(root, d, "meta.json")
+    if not os.path.isfile(mp) or not os.path.isfile(os.path.join(root, d, "patch.diff")):
+        continue
+    meta = json.load(open(mp))
     b = meta.get("breaks", "")
-    if b in fired:
+    det = meta.get("detected_by", {})
+    total += 1
+    o = det.get(b, {})
+    fired_own = o.get("exit") == 1
+    others = sorted(p for p, r in det.items() if p != b and r.get("exit") == 1)
+    if fired_own:
         own += 1
-    cell = ", ".join(("**%s**" % f) if f == b else f for f in fired) or "none"
-    if m[k].get("inconclusive"):
-        cell += " (inconclusive: %s)" % ", ".join(m[k]["inconclusive"])
-    print("| %s | %s | %s | %s |" % (k, b, meta.get("needs_to_manifest", "").replace("|", "\\|"), cell))
-print()
-print("%d changes; %d caught by at least one check, %d by the check of the property they were written against." % (
-    len(m), sum(1 for k in m if m[k]["fired"]), own))
+    if fired_own or others:
+        caught_any += 1
+    else:
+        misses.append(d)
+    need = (meta.get("needs_to_manifest") or "").replace("|", "\\|").replace("\n", " ")
+    need = re.sub(r"\s+", " ", need)
+    if len(need) > 230:
+        need = need[:227] + "..."
+    if fired_own:
+        cell = "**%s**: %s" % (b, ", ".join("`%s`" % r for r in o.get("rules", [])[:3]))
+    elif meta.get("not_reported_because"):
+        cell = "not reported (%s)" % meta["not_reported_because"]
+    else:
+        cell = "**%s**: not caught" % b
+    if others:
+        cell += "; also " + ", ".join(others)
+    prof = (meta.get("confirmed") or {}).get("demo_profile")
+    rows.append("| %s | %s%s | %s |" % (d, need, " *(release builds only)*" if prof == "release" else "", cell))
+
+out = ["| change | needs, in order to manifest | quick checks that fire |", "|---|---|---|"] + rows
+out.append("")
+out.append("%d changes; %d caught by the quick check of the property they were written against, %d by at least one check; not caught: %s." % (
+    total, own, caught_any, ", ".join(misses) or "none"))
+text = "\n".join(out)
+open(os.path.join(root, "MATRIX.md"), "w").write(text + "\n")
+dp = os.path.join(VERIF, "DESIGN.md")
+s = open(dp).read()
+a = s.index("<!-- MATRIX-BEGIN -->") + len("<!-- MATRIX-BEGIN -->")
+b = s.index("<!-- MATRIX-END -->")
+open(dp, "w").write(s[:a] + "\n" + text + "\n" + s[b:])
+print(out[-1])
